@@ -221,6 +221,8 @@ def tie_units(crates, kind):
                     out.append((c, f[:-2]))
             out.append((c, "Pins_%s_core" % c))
         else:
+            if os.path.exists(os.path.join(COQ, "Tie", "TieAux_%s.v" % c)):
+                out.append((c, "TieAux_%s" % c))
             out.append((c, "Pins_%s_aux" % c))
     return out
 
@@ -230,7 +232,7 @@ def _coq_dep_stamp():
     h = hashlib.sha256()
     for d in (COQ, os.path.join(COQ, "Tie")):
         for f in sorted(os.listdir(d)):
-            if f.endswith(".vo") and not f.startswith(("Tie_", "Pins_")):
+            if f.endswith(".vo") and not f.startswith(("Tie_", "TieAux_", "Pins_")):
                 h.update(f.encode())
                 h.update(open(os.path.join(d, f), "rb").read())
     return h.hexdigest()
